@@ -54,6 +54,7 @@ def spec(s, plus_on_ref, ids, excs):
             core = t[:-1] if plus else t
             if alower(core).startswith("licenseref-"):
                 if not all(c in REF_OK for c in core): return None
+                if len(core) == 11: return None            # SPDX: idstring = 1*(ALPHA / DIGIT / "-" / "."), not empty
                 if plus and not plus_on_ref: return None
                 out.append("LicenseRef-" + core[11:] + plus)
             else:
